@@ -509,7 +509,7 @@ class Lattice():
         """
         if 'dict_ver' not in d:  # d from a legacy method save_to_dict
             if 'lattice' in d:
-                d['type'] = d['lattice']  # for backward compatibility
+                d = {**d, 'type': d['lattice']}  # for backward compatibility
             if d['type'] in ["square", "SquareLattice"]:
                 net = SquareLattice(dims=d['dims'], boundary=d['boundary'])
             elif d['type'] in ["checkerboard", "CheckerboardLattice"]:
